@@ -125,7 +125,8 @@ macro_rules! impl_lerp_for_int {
         $(
             impl Lerp for $i {
                 fn lerp(&self, other: &Self, scalar: f32) -> Self {
-                    (*self as f32 + (other - self) as f32 * scalar).round() as $i
+                    // Take the difference in `f32`: `other - self` can overflow the integer type.
+                    (*self as f32 + (*other as f32 - *self as f32) * scalar).round() as $i
                 }
             }
         )*
